@@ -86,6 +86,7 @@ def gen_world(rng, profile, tier, no_twins=False):
         "name_twins": rng.random() < 0.15,
         "short_names": rng.random() < 0.15,
         "hostile_fields": rng.random() < 0.12,
+        "union_nest": rng.random() < 0.15,
         "zero_static": rng.random() < 0.25,
         "np_dims": rng.random() < 0.15,
         "kill": rng.random() < 0.5,
@@ -589,7 +590,7 @@ class GenSource:
                 # a referent in another buffer has to be duplicated, deeply when it holds references itself
                 deep = [x for x in other if typegen.has_refs(w.schema, tt)]
                 target = {"obj": rng.choice(deep or other).k}
-            elif r < 0.72 and ty["k"] == "ref":
+            elif r < 0.72 or (ty["k"] == "uref" and r < 0.85):
                 # a nested part of an object in the same buffer
                 for x in w.live_objs(buf=o.buf):
                     parts = [(pp, pt, pn) for pp, pt, pn in M.enum_paths(w.schema, x.t, x.node, through_refs=False) if pp and pt == tt and isinstance(pp[-1], (str, list)) and "*" not in pp]
@@ -604,6 +605,13 @@ class GenSource:
                 target["m"] = m
                 if "obj" in target and rng.random() < 0.3:
                     target["via_union"] = True
+                if "obj" in target and not target.get("via_union") and not getattr(self, "pending", None):
+                    # ... and next the reference is moved to the first part of that object, when the part's
+                    # type is a member too (same address, another member index)
+                    x = w.objs[target["obj"]]
+                    xt = w.schema[x.t]
+                    if xt["k"] == "struct" and xt["fields"] and xt["fields"][0][1] in ty["members"] and x.buf is o.buf and not typegen.is_dynamic(w.schema, x.t) and rng.random() < 0.7:
+                        self.pending = [{"op": "bind", "obj": o.k, "path": p, "target": {"part": [x.k, [xt["fields"][0][0]]], "m": ty["members"].index(xt["fields"][0][1])}, "via": self._via(o)}]
         return {"op": "bind", "obj": o.k, "path": p, "target": target, "via": self._via(o)}
 
     def copy(self, w):
